@@ -108,6 +108,10 @@ class SFTPAttributes:
             self.st_mtime = msg.get_int()
         if self._flags & self.FLAG_EXTENDED:
             count = msg.get_int()
+            # A name/value pair takes at least 8 bytes (two length words):
+            # never loop further than the message can possibly supply, a
+            # hostile count would otherwise keep us busy for 2**32 rounds.
+            count = min(count, len(msg.get_remainder()) // 8)
             for i in range(count):
                 # NOTE: read the name first; `d[f()] = g()` would call g()
                 # before f() and store the pairs the wrong way round.
